@@ -143,6 +143,44 @@ def diff_penalty(m, order):
     return D.T @ D
 
 
+DEFAULT_BIJECTOR = {"Gamma": "softplus", "InverseGamma": "chain_of_reciprocal_of_softplus", "HalfNormal": "softplus", "Exponential": "softplus",
+                    "LogNormal": "exp"}
+
+
+def pick_transform(rng, p):
+    """False | 'exp' (explicit Var.transform(tfb.Exp())) | 'auto' (auto_transform at build, default bijector)."""
+    if rng.random() >= p:
+        return False
+    return "exp" if rng.random() < 0.6 else "auto"
+
+
+def bij_kind(it):
+    if not it.get("transform"):
+        return None
+    return "exp" if it["transform"] in (True, "exp") else DEFAULT_BIJECTOR[it["fam"]]
+
+
+def to_unconstrained(kind, x):
+    x = np.asarray(x, np.float64)
+    if kind == "exp":
+        return np.log(x)
+    if kind == "softplus":
+        return np.log(np.expm1(x))
+    return np.log(np.expm1(1.0 / x))      # x = 1/softplus(t)
+
+
+def log_jac(kind, x):
+    """log |d x / d t| as a function of the constrained value x."""
+    x = np.asarray(x, np.float64)
+    if kind == "exp":
+        return np.log(x)
+    if kind == "softplus":
+        t = np.log(np.expm1(x))
+        return t - x          # log sigmoid(t) = t - softplus(t)
+    t = np.log(np.expm1(1.0 / x))
+    return (t - 1.0 / x) + 2 * np.log(x)   # |d/dt 1/sp(t)| = sigmoid(t)/sp(t)^2
+
+
 def gen_model(rng):
     """A hierarchical model program.  Items are dicts, in dependency order."""
     items = []
@@ -151,7 +189,7 @@ def gen_model(rng):
     # scale hyper-prior (positive family), optionally transformed
     fam_tau = str(rng.choice(POSITIVE))
     items.append({"t": "var", "name": "tau", "role": "param", "fam": fam_tau, "args": prior_args(rng, fam_tau),
-                  "shape": [], "transform": bool(rng.random() < 0.4), "per_obs": True})
+                  "shape": [], "transform": pick_transform(rng, 0.5), "per_obs": True})
     mu0_is_var = rng.random() < 0.5
     if mu0_is_var:
         items.append({"t": "var", "name": "mu0", "role": "param", "fam": "Normal", "args": prior_args(rng, "Normal"),
@@ -163,6 +201,11 @@ def gen_model(rng):
     idx = [int(x) for x in rng.integers(0, G, size=n)]
     items.append({"t": "calc", "name": "eta_g", "op": "gather", "args": [{"v": "theta"}], "extra": {"idx": idx},
                   "as_var": bool(rng.random() < 0.5)})
+    if rng.random() < 0.35:
+        # a weak variable that has a distribution of its own (reachable through Dist.at only)
+        items[-1]["as_var"] = True
+        items[-1]["dist"] = {"fam": "Normal", "args": {"loc": {"c": 0.0}, "scale": {"c": 3.0}},
+                             "role": str(rng.choice(["none", "param", "obs"])), "per_obs": bool(rng.random() < 0.5)}
     eta = "eta_g"
     # optional regression part, prior Normal or degenerate MVN
     if rng.random() < 0.7:
@@ -176,7 +219,7 @@ def gen_model(rng):
             r = int(np.linalg.matrix_rank(K))
             fam_t2 = str(rng.choice(["InverseGamma", "Gamma", "HalfNormal"]))
             items.append({"t": "var", "name": "tau2", "role": "param", "fam": fam_t2, "args": prior_args(rng, fam_t2),
-                          "shape": [], "transform": bool(rng.random() < 0.3), "per_obs": True})
+                          "shape": [], "transform": pick_transform(rng, 0.4), "per_obs": True})
             items.append({"t": "var", "name": "beta", "role": "param", "fam": "MVNDegenerate",
                           "args": {"loc": {"c": 0.0}, "var": {"v": "tau2"}, "pen": {"c": K.tolist()}, "rank": {"c": r}},
                           "shape": [p], "per_obs": True})
@@ -195,7 +238,7 @@ def gen_model(rng):
             sig = {"c": 0.8}
         else:
             items.append({"t": "var", "name": "sigma", "role": "param", "fam": fam_s, "args": prior_args(rng, fam_s),
-                          "shape": [], "transform": bool(rng.random() < 0.4), "per_obs": True})
+                          "shape": [], "transform": pick_transform(rng, 0.5), "per_obs": True})
             sig = {"v": "sigma"}
         items.append({"t": "var", "name": "y", "role": "obs", "fam": "Normal", "args": {"loc": {"v": eta}, "scale": sig},
                       "shape": [n], "per_obs": bool(rng.random() < 0.6)})
@@ -248,6 +291,7 @@ def build(desc, x64=False, flip_per_obs=None, initial=None):
     objs = {}
     nodes = {}
     transformed = {}
+    auto = []
 
     def ref(r):
         if "c" in r:
@@ -272,14 +316,28 @@ def build(desc, x64=False, flip_per_obs=None, initial=None):
             elif it["role"] == "obs":
                 v.observed = True
             objs[it["name"]] = v
-            if it.get("transform"):
+            if it.get("transform") in (True, "exp"):
                 tv = v.transform(tfb.Exp())
                 transformed[it["name"]] = tv
+            elif it.get("transform") == "auto":
+                v.auto_transform = True
+                auto.append(it["name"])
         elif it["t"] == "calc":
             f = jax_op(it["op"], it["extra"])
             c = lsl.Calc(f, *[ref(a) for a in it["args"]], _name="" if it["as_var"] else it["name"])
             if it["as_var"]:
-                objs[it["name"]] = lsl.Var(c, name=it["name"])
+                wd = None
+                if it.get("dist"):
+                    dd = it["dist"]
+                    wd = lsl.Dist(tfp_family(dd["fam"]), **{k: ref(v) for k, v in dd["args"].items()})
+                    wd.per_obs = dd["per_obs"] != (it["name"] in flip)
+                wv = lsl.Var(c, wd, name=it["name"])
+                if it.get("dist"):
+                    if it["dist"]["role"] == "param":
+                        wv.parameter = True
+                    elif it["dist"]["role"] == "obs":
+                        wv.observed = True
+                objs[it["name"]] = wv
             else:
                 objs[it["name"]] = c
         elif it["t"] == "freedist":
@@ -307,6 +365,8 @@ def build(desc, x64=False, flip_per_obs=None, initial=None):
         b.user_nodes["log_prob"] = n_
     b.model = gb.build_model()
     b.objs = objs
+    for nm in auto:
+        transformed[nm] = b.model.vars[nm + "_transformed"]
     b.transformed = transformed
     b.ft = ft
     return b
@@ -339,22 +399,35 @@ def oracle(desc, values):
     lp = ll = lpr = 0.0
     abs_terms = 0.0
     cond = 0.0   # conditioning of log(1-p) / log(p) for probabilities close to 0 or 1
+    min_p = 0.5
     all_classified = True
     for it in desc["items"]:
         if it["t"] == "calc":
             env[it["name"]] = apply_op(it["op"], [ref(a) for a in it["args"]], it["extra"])
+            if it.get("dist"):
+                dd = it["dist"]
+                terms = np.asarray(logpdf(dd["fam"], env[it["name"]], {k: ref(v) for k, v in dd["args"].items()}), np.float64)
+                lp += float(terms.sum())
+                abs_terms += float(np.abs(terms).sum())
+                if dd["role"] == "param":
+                    lpr += float(terms.sum())
+                elif dd["role"] == "obs":
+                    ll += float(terms.sum())
+                else:
+                    all_classified = False
         elif it["t"] == "var":
             a = {k: (v["c"] if ("c" in v and k == "rank") else ref(v)) for k, v in it["args"].items()}
             terms = np.asarray(logpdf(it["fam"], env[it["name"]], a), np.float64)
             if it["fam"] == "Bernoulli":
                 pp = np.broadcast_to(np.asarray(a["probs"], np.float64), np.shape(env[it["name"]]))
                 cond += float(np.sum(1.0 / np.minimum(pp, 1 - pp)))
+                min_p = min(min_p, float(np.min(np.minimum(pp, 1 - pp))))
             tot = float(terms.sum())
             at = float(np.abs(terms).sum())
             if it.get("transform"):
-                t = np.log(np.asarray(env[it["name"]], np.float64))
-                tot += float(np.sum(t))       # log|d exp(t)/dt| = t
-                at += float(np.abs(t).sum())
+                lj = log_jac(bij_kind(it), env[it["name"]])
+                tot += float(np.sum(lj))
+                at += float(np.abs(lj).sum())
             lp += tot
             abs_terms += at
             if it["role"] == "param":
@@ -370,4 +443,4 @@ def oracle(desc, values):
             abs_terms += float(np.abs(terms).sum())
             all_classified = False
     return {"log_prob": lp, "log_lik": ll, "log_prior": lpr, "abs_terms": abs_terms, "all_classified": all_classified,
-            "cond": cond}
+            "cond": cond, "min_p": min_p}
